@@ -1,5 +1,6 @@
 import MsiProofs.Props.C04
 import MsiProofs.Lemmas.GlobalInv
+import MsiProofs.Lemmas.GlobalInvUpd
 /-
 C04, under the package invariant — an insert or a delete that does not succeed, for whatever
 reason (any error kind, or the capacity panic), leaves the whole state exactly as it was: under
@@ -12,5 +13,8 @@ open MsiModel MsiModel.Pkg
 def insert_refused_noop := @MsiProofs.GlobalInv.insert_refused_noop
 /-- **any delete that does not return Ok changes nothing** -/
 def delete_refused_noop := @MsiProofs.GlobalInv.delete_refused_noop
+
+/-- **any update that does not return Ok changes nothing** -/
+def update_refused_noop := @MsiProofs.GlobalInvUpd.update_refused_noop
 
 end MsiProofs.C04
